@@ -46,7 +46,13 @@ func init() {
 						}
 					}
 					if !found {
-						e.fail("R3", role+":batch-error-handler", "-", "no per-request error handler found")
+						if ih := e.inlineBatchHandler(role); ih != nil {
+							if bw := e.clientMethods(role)["BatchWriteItem"]; bw != nil {
+								e.c15Inline(role, ih, bw)
+								continue
+							}
+						}
+						e.fail("R3", role+":batch-error-handler", "-", "no per-request error handler found, and the loop does not record failed requests itself")
 					}
 				}
 			}},
